@@ -95,7 +95,7 @@ CHECKS["C25"] = dict(
 
 CHECKS["C46"] = dict(
     src="C46.cpp", level="model_checking",
-    entries=[dict(name="harness_c46", quick={"shapes": 3, "B": 2, "K": 4}, thorough={"shapes": 4, "B": 3, "K": 6})],
+    entries=[dict(name="harness_c46", quick={"shapes": 3, "B": 2, "K": 4}, thorough={"shapes": 4, "B": 3, "K": 6}, thorough_ok=True)],
     anchors=["SymEngine::homogeneous_lde"],
     bounds="A in Z^{p x q}, (p,q) in {(1,2),(1,3),(2,3)} (thorough adds (2,4)), entries |a|<=2 (3) symbolic; completeness checked against every x in [0,4]^q ([0,6]^q) with x symbolic (one solver query per path)",
     outside=["solutions with a coordinate above K (Pottier bound (1+max|a| q)^p may exceed K)", "larger matrices"],
@@ -120,7 +120,7 @@ CHECKS["C21"] = dict(
 
 CHECKS["C33"] = dict(
     src="C33.cpp", level="model_checking",
-    entries=[dict(name="harness_c33", quick={"nops": 1, "nlims": 20}, thorough={"nops": 2, "nlims": 20})],
+    entries=[dict(name="harness_c33", quick={"nops": 1, "nlims": 20}, thorough={"nops": 2, "nlims": 20}, thorough_ok=True)],
     anchors=["SymEngine::Sieve::_extend", "SymEngine::Sieve::generate_primes", "SymEngine::Sieve::iterator::next_prime", "SymEngine::Sieve::clear"],
     bounds="call histories of 1 (thorough 2) operations from {generate_primes(L), iterator(L or unlimited) + 1/8/15 next_prime, clear, set_clear(b)} followed by a final generate_primes(L'); L from 20 boundary-biased limits <= 120; segment size set through the private static to 4, 8 or 16 bits so that segment boundaries fall inside the limit range; initial set_clear flag both ways; every memory access checked by the engine",
     outside=["limits above 120", "the public segment unit of 8192 bits (needs limits above 16384)"],
